@@ -37,10 +37,13 @@ RULE = ('exhaustive enumeration of operation sequences to the stated depth from 
         'override; distinct by (start state, operation sequence)')
 ASSUMPTIONS = ['levels are compared as the numeric level of the console handler, None before set_up']
 
-LEVELS = {'CRITICAL': 50, 'WARNING': 30, 'INFO': 20, 'DEBUG': 10}
-OPS = (['su:None', 'su:WARNING', 'su:DEBUG', 'su:file'] + ['sl:' + l for l in LEVELS] + ['disable', 'enable']
+LEVELS = {'CRITICAL': 50, 'ERROR': 40, 'WARNING': 30, 'INFO': 20, 'DEBUG': 10}
+OPS = (['su:None', 'su:WARNING', 'su:DEBUG', 'su:file'] + ['sl:' + l for l in ('CRITICAL', 'WARNING', 'INFO', 'DEBUG')] + ['disable', 'enable']
        + ['call:' + v for v in ['None', 'CRITICAL', 'WARNING', 'INFO', 'DEBUG']]
        + ['raise:' + v for v in ['None', 'CRITICAL', 'WARNING', 'INFO', 'DEBUG']])
+# operations used only by the random histories (the enumerated alphabet stays at the 20 operations of the design): a level
+# outside the four documented names ("any level"), and the override handed over by position instead of by keyword
+EXTRA_OPS = ['sl:ERROR', 'su:ERROR', 'callpos:CRITICAL', 'callpos:DEBUG', 'callpos:WARNING', 'raisepos:INFO', 'raisepos:CRITICAL']
 
 
 class NullOut:
@@ -97,13 +100,22 @@ class World:
                     lg.disabled = False
                     lg.propagate = True
 
-    def run_variant(self, name, verbose, bad=False):
+    def run_variant(self, name, verbose, bad=False, positional=False):
         S = self.S
         x = self.bad if bad else self.x
         kw = {} if verbose == 'omit' else {'verbose': verbose}
         st = np.random.get_state()
         np.random.seed(99)
         try:
+            if positional:
+                # verbose in its positional slot (4th of sift, 8th of the ensemble sifts, 11th of mask_sift), everything else equal
+                if name == 'sift':
+                    return S.sift(x, 1e-8, 2, verbose)
+                if name == 'mask_sift':
+                    return S.mask_sift(x, 1, 'ratio_imf', .2, 2, False, 2, 1e-8, 2, 1, verbose)
+                if name == 'ensemble_sift':
+                    return S.ensemble_sift(x, 2, .2, 'single', 1, 1e-8, 2, verbose)
+                return S.complete_ensemble_sift(x, 2, .2, 'single', 1, 1e-8, 2, verbose)[0]
             if name == 'sift':
                 return S.sift(x, max_imfs=2, **kw)
             if name == 'mask_sift':
@@ -146,7 +158,7 @@ def step(world, model, op, variant='sift'):
     verbose = None if arg == 'None' else arg
     before = world.handlers()
     try:
-        out = world.run_variant(variant, verbose, bad=(kind == 'raise'))
+        out = world.run_variant(variant, verbose, bad=kind.startswith('raise'), positional=kind.endswith('pos'))
     except Exception as e:
         after = world.handlers()
         return 'raised', (type(e).__name__, str(e)[:80], before == after)
@@ -167,6 +179,9 @@ def run_history(ctx, world, start, ops, variants=None, record=None):
     for i, op in enumerate(ops):
         variant = variants[i] if variants else 'sift'
         kind = op.split(':')[0]
+        if kind in ('callpos', 'raisepos'):
+            ctx.count('positional_verbose_calls')
+            kind = kind[:-3]
         lvl_before = L.get_level()
         try:
             outcome, detail = step(world, model, op, variant)
@@ -249,10 +264,11 @@ def run_shard(ctx):
             if ctx.out_of_time():
                 break
             L = int(rng.integers(4, 13))
-            ops = [OPS[int(rng.integers(len(OPS)))] for _ in range(L)]
+            allops = OPS + EXTRA_OPS
+            ops = [allops[int(rng.integers(len(allops)))] for _ in range(L)]
             variants = [gens.pick(rng, ['sift', 'sift', 'mask_sift', 'ensemble_sift', 'complete_ensemble_sift']) for _ in range(L)]
             start = gens.pick(rng, ['never', 'setup'])
-            nontriv = any(o.split(':')[0] in ('call', 'raise') and not o.endswith(':None') for o in ops)
+            nontriv = any(o.split(':')[0] in ('call', 'raise', 'callpos', 'raisepos') and not o.endswith(':None') for o in ops)
             ctx.case(digest(start, ops, variants), nontriv)
             tr = run_history(ctx, world, start, ops, variants)
             ctx.count('random_histories')
